@@ -434,6 +434,28 @@ fn trial(front: Front, scenario: u32, psite: u32, occ: u64, with_signal: bool, s
             }
             *LAST_STEP.lock().unwrap() = (0, fired);
         }
+        7 => {
+            // a long-lived instance: 200 wake-ups handled one by one, then close() while the consumer is blocked again
+            tot.backlog += 1;
+            tot.keys.insert(format!("{:?}:after-200-wakeups", front));
+            for i in 0..200u64 {
+                let y0 = obs.yields.load(Ordering::SeqCst);
+                deliver(1);
+                let tw = crate::now_ms();
+                while obs.yields.load(Ordering::SeqCst) == y0 {
+                    std::thread::yield_now();
+                    if obs.done.load(Ordering::SeqCst) || crate::now_ms() - tw > 5000 {
+                        break;
+                    }
+                }
+                if obs.yields.load(Ordering::SeqCst) == y0 {
+                    tot.bad.push(("close-misc".into(), format!("delivery #{} was not yielded within 5 s [{}]", i, label)));
+                    break;
+                }
+            }
+            close_caught(&clone_a);
+            closer_done.store(true, Ordering::SeqCst);
+        }
         6 => {
             // close() with the self-pipe completely full (hundreds of undrained wake-ups): it must return all the same, and the
             // consumer must end once it runs again
@@ -651,6 +673,52 @@ fn trial(front: Front, scenario: u32, psite: u32, occ: u64, with_signal: bool, s
     drop(handle);
 }
 
+/// close() lands while the very first add_signal of an (empty) instance is between its registration and its bookkeeping:
+/// closed is for ever all the same.
+fn close_during_first_add(rounds: u64, tot: &mut Tot) {
+    for r in 0..rounds {
+        director::clear_rules();
+        let s = match Signals::new(&[] as &[c_int]) {
+            Ok(s) => s,
+            Err(_) => return,
+        };
+        let h = s.handle();
+        let h2 = h.clone();
+        director::set_rule(site::IT_ADD_REGISTERED, RuleSpec { mode: mode::PAUSE, class_mask: class::MUTATOR, nth: 1, arg: 2, ..Default::default() });
+        let j = std::thread::spawn(move || {
+            crate::set_thread(6, class::MUTATOR);
+            let ok = h2.add_signal(libc::SIGUSR1).is_ok();
+            director::lib_exit();
+            ok
+        });
+        let tw = crate::now_ms();
+        let mut reached = true;
+        while director::parked(2) != Some(6) {
+            std::thread::yield_now();
+            if crate::now_ms() - tw > 2000 {
+                reached = false;
+                break;
+            }
+        }
+        close_caught(&h);
+        director::rule_off(site::IT_ADD_REGISTERED);
+        director::open_gate(2);
+        let _ = j.join();
+        director::close_gate(2);
+        if reached {
+            tot.paused_closer += 1;
+            tot.keys.insert("close-inside-first-add".to_string());
+        }
+        if !h.is_closed() || !s.is_closed() {
+            tot.bad.push(("is-closed-not-sticky".into(), format!("round {}: close() returned while the first add_signal of the instance stood between its registration and its bookkeeping; after that add_signal finished is_closed() is false again", r)));
+            return;
+        }
+        drop(s);
+        tot.trials += 1;
+    }
+    director::clear_rules();
+}
+
 pub fn main(args: &[String]) -> i32 {
     let seed = arg_u64(args, "--seed", 1);
     let reps = arg_u64(args, "--reps", 1);
@@ -775,7 +843,11 @@ pub fn main(args: &[String]) -> i32 {
         }
         return if nviol > 0 { 1 } else { 0 };
     }
+    close_during_first_add(20, &mut tot);
     'all: for _rep in 0..reps {
+        if !tot.bad.is_empty() {
+            break;
+        }
         for front in [Front::Wait, Front::Forever, Front::Poll] {
             for s in sites.iter() {
                 // sites that the front-end never passes
@@ -807,6 +879,7 @@ pub fn main(args: &[String]) -> i32 {
                     break 'all;
                 }
             }
+            trial(front, 7, 0, 0, true, sig, &mut rng, &mut tot);
             for _ in 0..2 {
                 trial(front, 6, 0, 0, true, sig, &mut rng, &mut tot);
                 if !tot.bad.is_empty() && !crate::has_flag(args, "--keep-going") || tot.inconclusive.is_some() {
